@@ -26,6 +26,7 @@ type delivery struct {
 	PH        string // name of the mempool history (Seq "poolhist")
 	Ahead     bool   // poolhist: headers of block N and N+1 are delivered before block N
 	Ext       any    // Seq "ext": the case of an extension family (ext_test.go)
+	RS        *rsSpec // round 4: the delivery happens on a replica that was restarted (restartmenu_test.go)
 }
 
 type item struct {
@@ -150,6 +151,14 @@ func hdrEdits() []hdrEdit {
 		{"PrevStateRoot=0", 1, set(func(c *stateCtx, h *block.Header) { h.PrevStateRoot = util.Uint256{} })},
 		{"PrevStateRoot^1", 1, set(func(c *stateCtx, h *block.Header) { flip(h.PrevStateRoot[:]) })},
 		{"PrevStateRoot=parent's", 1, set(func(c *stateCtx, h *block.Header) { h.PrevStateRoot = c.cv.Tip.PrevStateRoot })},
+		// round 4: roots of other heights (the parent's parent is "PrevStateRoot=parent's" above)
+		{"PrevStateRoot=root-of-block1", 1, set(func(c *stateCtx, h *block.Header) { h.PrevStateRoot = c.root1 })},
+		{"PrevStateRoot=root-of-genesis", 1, set(func(c *stateCtx, h *block.Header) { h.PrevStateRoot = c.root0 })},
+		{"PrevStateRoot=root-after-this-block", 1, set(func(c *stateCtx, h *block.Header) {
+			if r, err := util.Uint256DecodeStringLE(c.bRoot); err == nil {
+				h.PrevStateRoot = r
+			}
+		})},
 		{"StateRootEnabled=false", 1, set(func(c *stateCtx, h *block.Header) { h.StateRootEnabled = false; h.PrevStateRoot = util.Uint256{} })},
 		{"StateRootEnabled=true", -1, set(func(c *stateCtx, h *block.Header) { h.StateRootEnabled = true; h.PrevStateRoot = c.cv.LocalRoot })},
 	}
@@ -593,6 +602,7 @@ func menu() []item {
 	add(item{ID: "ctl.valid-block", Group: "control", Hdr: true, Want: "valid", Make: func(c *stateCtx) *delivery {
 		return &delivery{Raw: append([]byte{}, c.bBytes...), Flag: c.fam.SRIH}
 	}})
+	its = append(its, menuRestarted(its)...)
 	return its
 }
 
